@@ -620,15 +620,43 @@ func (w *vhWorld) step(op vhOp) (obs vhObs) {
 		}
 		var wg sync.WaitGroup
 		wg.Add(3)
+		// slow-subscriber mode: the re-learning goroutines keep going until the suspecting / expiring one is through (its
+		// callbacks are the slow ones), so that every expiry has a re-discovery racing with it
+		slow := op.E != ""
+		stop := make(chan struct{})
+		running := func(i int) bool {
+			if !slow {
+				return i < iters
+			}
+			select {
+			case <-stop:
+				return false
+			default:
+				return true
+			}
+		}
 		go func() {
 			defer wg.Done()
-			for i := 0; i < iters; i++ {
+			for i := 0; running(i); i++ {
 				n.state.ApplyDigest(digest{{ID: ref, Addr: "10.9.9.9:7000", Version: 0}})
+				if slow {
+					time.Sleep(20 * time.Microsecond)
+				}
 			}
 		}()
 		go func() {
 			defer wg.Done()
+			defer close(stop)
 			for i := 0; i < iters; i++ {
+				if slow {
+					// wait (briefly) for the node to be known again, so that every iteration has something to expire
+					for w0 := time.Now(); time.Since(w0) < 2*time.Millisecond; {
+						if _, ok := n.state.Node(ref); ok {
+							break
+						}
+						time.Sleep(10 * time.Microsecond)
+					}
+				}
 				n.fd.mu.Lock()
 				n.fd.levels = map[string]float64{ref: 1e9}
 				n.fd.mu.Unlock()
@@ -638,8 +666,11 @@ func (w *vhWorld) step(op vhOp) (obs vhObs) {
 		}()
 		go func() {
 			defer wg.Done()
-			for i := 0; i < iters; i++ {
+			for i := 0; running(i); i++ {
 				n.state.ApplyDelta(delta{{ID: ref, Addr: "10.9.9.9:7000", Entries: []Entry{{Key: "k", Value: "v", Version: uint64(i%3 + 1)}}}})
+				if slow {
+					time.Sleep(50 * time.Microsecond)
+				}
 			}
 		}()
 		wg.Wait()
